@@ -94,6 +94,24 @@ claim(
     "DESIGN.md §2 C10",
 )
 
+claim(
+    "C17",
+    "complete EXEC/FSWRITE sink inventory on resolved callees with per-sink discharge (closed constant, "
+    "dispatch shape, opt-in guard dominance, who-may-call table), reference-graph reachability from every "
+    "entry point, character-set abstract interpretation of the doc-derived eval argument, def-use path roots",
+    "Decides 'no execution / import / spawn / network / stray write' for the sink inventory: every sink in "
+    "non-test code is enumerated on each run and must be discharged; parsers/emitters/doctrans/sync reach only "
+    "the justified ones; parsers and AST emitters reach no write sink; commands write only paths rooted at "
+    "their output parameters. Decides that the one doc-derived string handed to eval is confined to an "
+    "alphabet without ( ) _ = : @ { } \\ (flow-insensitive, guard-refined charset interpretation of "
+    "parse_adhoc_doc_for_typ and helpers) — a necessary and, under the stated assumption, sufficient "
+    "condition for the eval not to call or import anything.",
+    "Trusted: the sink inventory (sa/effects.py); third-party callees are not analysed; an expression over "
+    "the bounded alphabet can only look names/attributes/subscripts up. exmod is outside the property's entry "
+    "list. Reference graph over-approximates calls (mentions count).",
+    "DESIGN.md §2 C17",
+)
+
 
 def main():
     """write MANIFEST.json"""
